@@ -146,3 +146,15 @@ PROPS["C17"] = {
         "the per-series fidelity loop of convert_prom_to_arrow (labels, row order) and the OTLP conversion are not under contract: the claim covers parser totality, end computation, value routing and timestamp conversion",
     ],
 }
+
+PROPS["C19"] = {
+    "level": "proof",
+    "technique": "Verus contracts on the extracted NodeInfo::can_accept_writes (equals the property's eligibility predicate), ShardAssignment::assign_shard / unassign_shard (one node per shard, an assignment whose node is still eligible is reused) and DistributedWriteRouter::route_write (returns only the registry's current record of an eligible node, or an error; termination by a decreases measure — unbounded recursion or an unbounded loop fails the termination obligation)",
+    "verus": ["c19_routing.rs.in"],
+    "explanation": "",
+    "assumptions": [
+        "the three assignment strategies (hash ring, fewest shards, least loaded) are external here: they return some node id or an error and do not touch the assignment table; ConsistentHashRing / rebalance are not under contract",
+        "RwLock / Arc are transparent under the sequential reading; membership changes between two requests are covered because the contracts quantify over every registry state",
+        "let-else is rewritten to an equivalent match (declared rewrite)",
+    ],
+}
